@@ -351,7 +351,21 @@ def ex_name(case, obs):
         d = np.asarray(d)
         obs.check(d.shape == g.shape and np.array_equal(d.astype(np.float64), g.astype(np.float64)), "generate_mask",
                   "name-equals-direct-call", f"{name}: differs from the direct call with centre {c}", kind)
-    obs.outcome = _digest(g)
+    # Start from a non-initial state: the caller edits the returned mask in place (labels it, carves it) and asks for the
+    # same name again.  The generator must build the same shape again - a result that aliases an internal buffer would
+    # hand the edited array back.
+    keep = g.copy()
+    try:
+        m[...] = 7
+        m[0, 0, 0] = -3
+    except (TypeError, ValueError):
+        pass
+    ok, m2 = _call(obs, "generate_mask", kind, cm.generate_mask, name, **kw)
+    if ok:
+        g2 = np.asarray(m2)
+        obs.check(g2.shape == keep.shape and np.array_equal(g2.astype(np.float64), keep.astype(np.float64)), "generate_mask",
+                  "name-same-shape-after-caller-edit", f"{name}: a second call after the caller edited the first result returns a different mask", kind)
+    obs.outcome = _digest(keep)
 
 
 # ---------------------------------------------------------------------------------------------
